@@ -6,6 +6,7 @@ package main
 
 import (
 	"context"
+	"crypto/sha256"
 	"encoding/json"
 	"fmt"
 	"os"
@@ -20,6 +21,7 @@ import (
 	"github.com/codenotary/immudb/embedded/vhooks/vsched"
 	"verif/mc/crashfs"
 	"verif/mc/lib"
+	"verif/mc/sched"
 	"verif/mc/storeh"
 )
 
@@ -64,7 +66,9 @@ var workloads = []workload{
 	{"indexflush5", func() *store.Options {
 		return syncedOpts().WithIndexOptions(store.DefaultIndexOptions().WithFlushBufferSize(4096).WithCacheSize(64).WithFlushThld(1).WithSyncThld(2).WithBulkPreparationTimeout(time.Hour))
 	}, commitN(5, func(i int) int { return 5 })},
-	{"embedded-prealloc4", func() *store.Options { return syncedOpts().WithEmbeddedValues(true).WithPreallocFiles(true).WithFileSize(512) }, commitN(4, func(i int) int { return 30 })},
+	{"embedded-prealloc4", func() *store.Options {
+		return syncedOpts().WithEmbeddedValues(true).WithPreallocFiles(true).WithFileSize(512)
+	}, commitN(4, func(i int) int { return 30 })},
 	{"ahtsync1-v0-io2", func() *store.Options {
 		return syncedOpts().WithWriteTxHeaderVersion(0).WithMaxIOConcurrency(2).WithAHTOptions(store.DefaultAHTOptions().WithWriteBufferSize(4096).WithSyncThld(1))
 	}, commitN(4, func(i int) int { return 8 })},
@@ -311,6 +315,160 @@ func classify(s string) string {
 	return strings.ReplaceAll(strings.TrimSpace(s), " ", "_")
 }
 
+var depth2 bool
+var depth2Every = 6
+var recoveryJobs = make(chan *crashfs.Image, 1<<16)
+
+// recoverUnderJournal runs the real recovery (Open, wait for indexing, Close) on a materialised image under the
+// controlled scheduler with journaling and returns its journal (paths are under dir).
+func recoverUnderJournal(w workload, dir string) ([]vos.Op, string) {
+	vos.Reset(true)
+	e := vsched.Run(nil, vsched.Options{MaxSteps: 2000000}, func() {
+		st, err := store.Open(dir, w.opts())
+		if err != nil {
+			return
+		}
+		if w.name == "allowance-backlog" || w.name == "discard-then-recommit" {
+			st.SetExternalCommitAllowance(false)
+		}
+		ctx := context.Background()
+		if pre := st.LastPrecommittedTxID(); pre > st.LastCommittedTxID() {
+			st.WaitForTx(ctx, pre, false)
+		}
+		st.WaitForIndexingUpto(ctx, st.LastCommittedTxID())
+		st.Close()
+	})
+	ops := append([]vos.Op{}, vos.Journal...)
+	vos.Reset(false)
+	return ops, e.Failure
+}
+
+// checkJournal enumerates and checks every crash image of one recorded execution.
+func checkJournal(w workload, res result, seen map[[32]byte]bool, opts crashfs.Options) map[string]any {
+	kinds := map[string]int{}
+	for _, o := range res.ops {
+		kinds[o.Kind]++
+	}
+	// enumerate images sequentially, check them in parallel
+	type job struct{ img *crashfs.Image }
+	jobs := make(chan job, 64)
+	var wg sync.WaitGroup
+	var mu sync.Mutex
+	checked := 0
+	for k := 0; k < c.Workers; k++ {
+		wg.Add(1)
+		go func() {
+			defer wg.Done()
+			dir := lib.Scratch("c03img")
+			defer os.RemoveAll(dir)
+			for j := range jobs {
+				if err := j.img.Materialise(res.live, dir); err != nil {
+					panic(err)
+				}
+				sig, det := checkImage(w, res, j.img, dir)
+				mu.Lock()
+				checked++
+				n2 := checked
+				mu.Unlock()
+				if sig == "" && depth2 && n2%depth2Every == 0 {
+					recoveryJobs <- j.img
+				}
+				c.Eval(fmt.Sprintf("%s:%x", w.name, j.img.Hash[:8]))
+				if sig != "" {
+					c.Violate(lib.Violation{Sig: fmt.Sprintf("%s workload=%s torn=%s after=%q acked=%d", sig, w.name, tornFiles(j.img.Desc), j.img.LastOp, len(j.img.Marks)),
+						Detail: fmt.Sprintf("crash point %d (after %s), un-fsynced writes applied: %s\n%s", j.img.Point, j.img.LastOp, j.img.Desc, det),
+						Replay: replay{Workload: w.name, Point: j.img.Point, Desc: j.img.Desc}})
+				}
+			}
+		}()
+	}
+	st := crashfs.Enumerate(res.ops, opts, seen, func(img *crashfs.Image) bool {
+		if c.Expired() {
+			return false
+		}
+		jobs <- job{img}
+		return true
+	})
+	close(jobs)
+	wg.Wait()
+	if c.Expired() {
+		c.CapHit("workload " + w.name + ": time budget reached")
+	}
+	if st.CapsHit > 0 {
+		c.CapHit(fmt.Sprintf("workload %s: %d crash points exceeded %d images", w.name, st.CapsHit, opts.MaxPerPoint))
+	}
+	checked2, recoveries := 0, 0
+	for depth2 && !c.Expired() {
+		var img *crashfs.Image
+		select {
+		case img = <-recoveryJobs:
+		default:
+		}
+		if img == nil {
+			break
+		}
+		base := lib.Scratch("c03rec")
+		if err := img.Materialise(res.live, base); err != nil {
+			panic(err)
+		}
+		ops2, fail := recoverUnderJournal(w, base)
+		recoveries++
+		if fail != "" {
+			c.Violate(lib.Violation{Sig: fmt.Sprintf("recovery-run-failed workload=%s %s", w.name, classify(strings.SplitN(fail, "\n", 2)[0])), Detail: fail})
+			os.RemoveAll(base)
+			continue
+		}
+		// second-level images: crash points of the recovery run on top of the first-level image
+		o2 := opts
+		o2.BaseFiles, o2.BaseDirs, o2.Marks = map[string][]byte{}, nil, img.Marks
+		for p, cnt := range img.Files {
+			o2.BaseFiles[base+strings.TrimPrefix(p, res.live)] = cnt
+		}
+		for _, d := range img.Dirs {
+			o2.BaseDirs = append(o2.BaseDirs, base+strings.TrimPrefix(d, res.live))
+		}
+		o2.MaxPerPoint = 64
+		var imgs []*crashfs.Image
+		crashfs.Enumerate(ops2, o2, seen, func(i2 *crashfs.Image) bool { imgs = append(imgs, i2); return len(imgs) < 4000 })
+		var wg2 sync.WaitGroup
+		var mu2 sync.Mutex
+		next := 0
+		for k := 0; k < c.Workers; k++ {
+			wg2.Add(1)
+			go func() {
+				defer wg2.Done()
+				dir := lib.Scratch("c03img2")
+				defer os.RemoveAll(dir)
+				for {
+					mu2.Lock()
+					i := next
+					next++
+					mu2.Unlock()
+					if i >= len(imgs) || c.Expired() {
+						return
+					}
+					if err := imgs[i].Materialise(base, dir); err != nil {
+						panic(err)
+					}
+					sig, det := checkImage(w, res, imgs[i], dir)
+					c.Eval(fmt.Sprintf("%s:2:%x", w.name, imgs[i].Hash[:8]))
+					mu2.Lock()
+					checked2++
+					mu2.Unlock()
+					if sig != "" {
+						c.Violate(lib.Violation{Sig: fmt.Sprintf("%s workload=%s second-crash-during-recovery torn=%s after=%q acked=%d", sig, w.name, tornFiles(imgs[i].Desc), imgs[i].LastOp, len(imgs[i].Marks)),
+							Detail: fmt.Sprintf("first crash at point %d (%s), second crash during recovery at point %d (after %s), un-fsynced writes applied: %s\n%s", img.Point, img.Desc, imgs[i].Point, imgs[i].LastOp, imgs[i].Desc, det)})
+					}
+				}
+			}()
+		}
+		wg2.Wait()
+		os.RemoveAll(base)
+	}
+	return map[string]any{"workload": w.name, "journal_ops": len(res.ops), "op_kinds": kinds, "crash_points": st.Points, "images": st.Images, "distinct_images_checked": checked, "acked": len(res.order),
+		"recovery_runs_crashed_again": recoveries, "second_level_images_checked": checked2}
+}
+
 type replay struct {
 	Workload string   `json:"workload"`
 	Point    int      `json:"point"`
@@ -323,6 +481,10 @@ func main() {
 	c.Assume("persistence model: per-file prefix of un-fsynced writes + torn next write; directory entry durable once the file or its parent directory was fsynced; remove/rename atomic and ordered")
 	c.Assume("workloads run under the cooperative scheduler with the default schedule, so the journal is reproducible")
 	opts := crashfs.Options{Torn: true, MaxPerPoint: 4096}
+	depth2 = true
+	if c.Thorough() {
+		depth2Every = 1
+	}
 	wls := workloads
 	if only := os.Getenv("VERIF_ONLY"); only != "" {
 		wls = nil
@@ -357,7 +519,9 @@ func main() {
 		c.Finish("replay", false)
 	}
 	var summaries []any
+	seen := map[string]map[[32]byte]bool{}
 	for _, w := range wls {
+		seen[w.name] = map[[32]byte]bool{}
 		if c.Expired() {
 			c.CapHit("workload " + w.name + " not explored")
 			continue
@@ -367,57 +531,8 @@ func main() {
 			fmt.Fprintln(os.Stderr, "HARNESS ERROR: workload", w.name, "failed:", res.fail)
 			os.Exit(2)
 		}
-		kinds := map[string]int{}
-		for _, o := range res.ops {
-			kinds[o.Kind]++
-		}
-		// enumerate images sequentially, check them in parallel
-		type job struct{ img *crashfs.Image }
-		jobs := make(chan job, 64)
-		var wg sync.WaitGroup
-		var mu sync.Mutex
-		checked := 0
-		for k := 0; k < c.Workers; k++ {
-			wg.Add(1)
-			go func() {
-				defer wg.Done()
-				dir := lib.Scratch("c03img")
-				defer os.RemoveAll(dir)
-				for j := range jobs {
-					if err := j.img.Materialise(res.live, dir); err != nil {
-						panic(err)
-					}
-					sig, det := checkImage(w, res, j.img, dir)
-					mu.Lock()
-					checked++
-					mu.Unlock()
-					c.Eval(fmt.Sprintf("%s:%x", w.name, j.img.Hash[:8]))
-					if sig != "" {
-						c.Violate(lib.Violation{Sig: fmt.Sprintf("%s workload=%s torn=%s after=%q acked=%d", sig, w.name, tornFiles(j.img.Desc), j.img.LastOp, len(j.img.Marks)),
-							Detail: fmt.Sprintf("crash point %d (after %s), un-fsynced writes applied: %s\n%s", j.img.Point, j.img.LastOp, j.img.Desc, det),
-							Replay: replay{Workload: w.name, Point: j.img.Point, Desc: j.img.Desc}})
-					}
-				}
-			}()
-		}
-		seen := map[[32]byte]bool{}
-		st := crashfs.Enumerate(res.ops, opts, seen, func(img *crashfs.Image) bool {
-			if c.Expired() {
-				return false
-			}
-			jobs <- job{img}
-			return true
-		})
-		close(jobs)
-		wg.Wait()
-		if c.Expired() {
-			c.CapHit("workload " + w.name + ": time budget reached")
-		}
-		if st.CapsHit > 0 {
-			c.CapHit(fmt.Sprintf("workload %s: %d crash points exceeded %d images", w.name, st.CapsHit, opts.MaxPerPoint))
-		}
+		sm := checkJournal(w, res, seen[w.name], opts)
 		os.RemoveAll(res.live)
-		sm := map[string]any{"workload": w.name, "journal_ops": len(res.ops), "op_kinds": kinds, "crash_points": st.Points, "images": st.Images, "distinct_images_checked": checked, "acked": len(res.order)}
 		summaries = append(summaries, sm)
 		bs, _ := json.Marshal(sm)
 		fmt.Println(" ", string(bs))
@@ -433,6 +548,85 @@ func main() {
 			sort.Strings(files)
 			c.Sample(map[string]any{"workload": w.name, "files_written": files, "first_ops": fmt.Sprint(opsHead(res.ops, 12))})
 		}
+	}
+	// ---- concurrent committers: every schedule (preemption bound 1) of two committers on the synced store gives its
+	// own journal; the first N distinct journals are crash-enumerated
+	if os.Getenv("VERIF_ONLY") == "" || os.Getenv("VERIF_ONLY") == "concurrent2" {
+		maxJournals := 12
+		if c.Thorough() {
+			maxJournals = 200
+		}
+		w := workload{name: "concurrent2", opts: syncedOpts}
+		var cur result
+		sc := sched.Scenario{Name: "concurrent2", Record: true, MaxSteps: 400000, Body: func(dir string) string {
+			l := storeh.NewLedger()
+			cur = result{live: dir, ledger: l}
+			st, err := store.Open(dir, w.opts())
+			if err != nil {
+				panic(err)
+			}
+			for i := 0; i < 2; i++ {
+				i := i
+				vsched.Spawn(func() {
+					tx, _ := st.NewWriteOnlyTx(context.Background())
+					tx.Set([]byte("k"), nil, []byte(fmt.Sprintf("val-%d", i)))
+					if i == 1 {
+						tx.Set([]byte("k1"), nil, []byte("second"))
+					}
+					h, err := tx.Commit(context.Background())
+					if err != nil {
+						panic(err)
+					}
+					rec, err := storeh.ReadRec(st, h.ID, true)
+					if err != nil {
+						panic(err)
+					}
+					l.Acked[h.ID] = rec
+					cur.order = append(cur.order, h.ID)
+					vos.Mark(fmt.Sprintf("ack %d", h.ID))
+				})
+			}
+			vsched.Join()
+			st.Close()
+			return fmt.Sprint(cur.order)
+		}}
+		journals := map[[32]byte]bool{}
+		tot := map[string]any{"workload": "concurrent2", "journals": 0, "crash_points": 0, "images": 0, "distinct_images_checked": 0, "recovery_runs_crashed_again": 0, "second_level_images_checked": 0}
+		seenImg := map[[32]byte]bool{}
+		stx := sched.ExploreLocal(sc, 1, c.Deadline, func(e *vsched.Exec, obs string) bool {
+			if e.Failure != "" {
+				c.Violate(lib.Violation{Sig: "workload-failed workload=concurrent2 " + strings.SplitN(e.Failure, "\n", 2)[0], Detail: e.Failure})
+				return true
+			}
+			ops := append([]vos.Op{}, vos.Journal...)
+			h := sha256.New()
+			for _, o := range ops {
+				fmt.Fprintf(h, "%s|%s|%d|%x|%s;", o.Kind, o.Path, o.Off, o.Data, o.Note)
+			}
+			var k [32]byte
+			copy(k[:], h.Sum(nil))
+			if journals[k] {
+				return true
+			}
+			journals[k] = true
+			r := cur
+			r.ops = ops
+			sm := checkJournal(w, r, seenImg, opts)
+			tot["journals"] = tot["journals"].(int) + 1
+			for _, f := range []string{"crash_points", "images", "distinct_images_checked", "recovery_runs_crashed_again", "second_level_images_checked"} {
+				tot[f] = tot[f].(int) + sm[f].(int)
+			}
+			return len(journals) < maxJournals && !c.Expired()
+		})
+		tot["schedules_explored"] = stx.Execs
+		tot["schedule_space_complete"] = stx.Complete
+		if !stx.Complete {
+			c.CapHit(fmt.Sprintf("workload concurrent2: crash enumeration limited to the first %d distinct journals of the schedule space (preemption bound 1)", len(journals)))
+		}
+		summaries = append(summaries, tot)
+		bs, _ := json.Marshal(tot)
+		fmt.Println(" ", string(bs))
+		sched.Cleanup()
 	}
 	c.Set("workloads", summaries)
 	c.Finish("for every workload: every crash point of its journal x every combination of per-file prefixes of un-fsynced writes (+ torn variants at half length and 512-byte boundaries), deduplicated by image content; each distinct image is reopened with the real recovery code and checked (acked txs identical, dense chain, BlRoot, dual proofs from every acked state, index = recovered history, new commit, second reopen); distinct = distinct images", !c.Expired())
